@@ -73,10 +73,13 @@ def _apply(m, dst):
 def main(argv):
   tier = 'quick'
   want = []
+  confirm = False  # --confirm: minimise + fresh-interpreter replay of every violation (slow); default: list mode
   it = iter(argv)
   for a in it:
     if a == '--tier':
       tier = next(it)
+    elif a == '--confirm':
+      confirm = True
     else:
       want.append(a)
   rows = []
@@ -96,12 +99,18 @@ def main(argv):
         env = dict(os.environ)
         env.pop('_VERIF_PINNED', None)
         env.update({'VERIF_REPO': dst, 'VERIF_EVIDENCE_DIR': evd})
+        if not confirm:
+          env['VERIF_LIST'] = '1'  # list distinct unlisted signatures, skip minimisation and replay
         t0 = time.time()
         p = subprocess.run([sys.executable, os.path.join(boot.VERIF_ROOT, 'vcheck'), prop, tier],
                            capture_output=True, text=True, env=env, timeout=3600)
         viol = [l for l in p.stdout.splitlines() if l.startswith('VIOLATION')]
         clause = [l.strip() for l in p.stdout.splitlines() if l.strip().startswith('clause=')]
-        status = 'CAUGHT' if (p.returncode == 1 and viol) else ('HARNESS-ERROR' if p.returncode == 2 else 'MISSED')
+        new_sigs = [l[8:] for l in p.stdout.splitlines() if l.startswith('SIG NEW ')]
+        if not confirm:
+          clause = [' '.join(x.split(' ')[1:]) for x in new_sigs]
+        status = 'CAUGHT' if ((p.returncode == 1 and viol) or (p.returncode == 3 and new_sigs)) else (
+            'HARNESS-ERROR' if p.returncode == 2 else 'MISSED')
         if m.get('benign'):
           status = {'CAUGHT': 'FALSE-ALARM', 'MISSED': 'QUIET', 'HARNESS-ERROR': 'HARNESS-ERROR'}[status]
         rows.append((m['id'], prop, status, time.time() - t0, clause[0][:150] if clause else ''))
@@ -118,7 +127,10 @@ def main(argv):
     path = os.path.join(boot.VERIF_ROOT, 'seeded', 'SENSITIVITY.md')
     with open(path, 'w') as f:
       f.write('# Sensitivity table (written by `./vcheck mutants`, tier %s)\n\n' % tier)
-      f.write('Each change is applied to a scratch copy of `/repo/vizier`; the listed quick check must exit 1 with a VIOLATION.\n\n')
+      f.write('Each change is applied to a scratch copy of `/repo/vizier` and the listed quick check is run against it.\n')
+      f.write(('Mode: every violation minimised and replayed in a fresh interpreter (exit 1 + VIOLATION).\n\n' if confirm else
+               'Mode: list (`VERIF_LIST=1`): CAUGHT = the check reported at least one violation signature that is not a listed known finding; '
+               'minimisation and fresh-interpreter replay were done when each change was harvested (see its meta.json) and can be repeated with `./vcheck mutants --confirm <id>`.\n\n'))
       f.write('| change | check | result | wall s | first clause |\n|---|---|---|---|---|\n')
       for r in rows:
         f.write('| %s | %s | %s | %.0f | %s |\n' % (r[0], r[1], r[2], r[3], r[4].replace('|', '/')))
